@@ -111,7 +111,10 @@ fn universe(k: StrKind) -> CSet {
                     if base_alphabet(*k).is_some() {
                         return (*k, (0u32..=0xa0).filter_map(char::from_u32).collect());
                     }
-                    (*k, (lo..=hi.min(lo + 0x2100)).filter_map(char::from_u32).collect())
+                    // the large alphabets: the stretch around the probe characters, both sides of
+                    // the surrogate gap and the top of the BMP (a 16-bit table has no entries
+                    // for U+D800..U+DFFF: code point and table index part ways there)
+                    (*k, (lo..=hi.min(lo + 0x2100)).chain(0xd700..=0xe8ff).chain(0xf700..=0xffff).filter_map(char::from_u32).collect())
                 })
                 .collect()
         })
@@ -302,7 +305,7 @@ struct Emitted {
     text: String,
 }
 
-fn expand_from(items: &[String]) -> Result<CSet, String> {
+fn expand_from(items: &[String], uni: &CSet) -> Result<CSet, String> {
     let mut out = CSet::new();
     for it in items {
         let chars: Vec<char> = it.chars().collect();
@@ -313,8 +316,8 @@ fn expand_from(items: &[String]) -> Result<CSet, String> {
             if a > b {
                 return Err(format!("inverted range {it:?}"));
             }
-            // (sets are compared inside the universe of the case, which ends below U+3000)
-            out.extend((a..=b.min(0x3000)).filter_map(char::from_u32));
+            // (sets are compared inside the universe of the case)
+            out.extend(uni.iter().filter(|c| (a..=b).contains(&(**c as u32))).copied());
         } else {
             return Err(format!("unrecognised from item {it:?}"));
         }
@@ -328,7 +331,7 @@ fn observe(m: &RModule, i: usize, c: &Case) -> Result<Emitted, String> {
     match &attrs.from {
         None => Ok(Emitted { raw: None, text: "no from annotation".into() }),
         Some(items) => Ok(Emitted {
-            raw: Some(expand_from(items)?),
+            raw: Some(expand_from(items, &universe(c.kind))?),
             text: format!("from({})", items.iter().map(|x| format!("{x:?}")).collect::<Vec<_>>().join(", ")),
         }),
     }
@@ -468,7 +471,24 @@ fn operands(k: StrKind) -> Vec<Opnd> {
     }
     v.push(Opnd::ToMax(sorted[sorted.len() / 2]));
     v.push(Opnd::FromMin(sorted[sorted.len() / 2]));
+    v.extend(high_operands(k));
     v
+}
+
+/// operands above the surrogate gap (BMPString / UniversalString only)
+fn high_operands(k: StrKind) -> Vec<Opnd> {
+    if !matches!(k, StrKind::Bmp | StrKind::Universal) {
+        return vec![];
+    }
+    vec![
+        Opnd::Range('\u{e000}', '\u{e0ff}'),
+        Opnd::Range('\u{d7f0}', '\u{e010}'),
+        Opnd::Range('\u{20ac}', '\u{f8ff}'),
+        Opnd::Range('\u{f7f0}', '\u{fffd}'),
+        Opnd::Str("\u{ff10}\u{ff19}\u{e001}".to_string()),
+        Opnd::ToMax('\u{e000}'),
+        Opnd::FromMin('\u{e100}'),
+    ]
 }
 
 fn ie(a: &Opnd) -> IE {
@@ -665,6 +685,13 @@ pub fn run(tier: Tier, seed: u64, replay: Option<String>) -> i32 {
                     }
                 }
             }
+        }
+    }
+    // the operands above the surrogate gap, each on its own and united with a low one
+    for k in [StrKind::Bmp, StrKind::Universal] {
+        for (i, h) in high_operands(k).into_iter().enumerate() {
+            cases.push(Case { kind: k, component: i % 2 == 0, form: Form::Plain, expr: Expr { all_except: None, unions: vec![vec![ie(&h)]] } });
+            cases.push(Case { kind: k, component: i % 2 == 1, form: Form::Plain, expr: Expr { all_except: None, unions: vec![vec![ie(&Opnd::Str("Az".into()))], vec![ie(&h)]] } });
         }
     }
     for k in non_km {
